@@ -1566,6 +1566,21 @@ class FT(FuncTranslator):
                 # pointer; read it as a pointer and take its offset so that the value constant-folds
                 self.emit('%s = (uint64_t)__CPROVER_POINTER_OFFSET(*(uint8_t **)%s);' % (res, p))
                 return
+            if ty.k == 'int' and ty.bits in (16, 32, 64) and res is not None and src_tok in self.bc_origin \
+                    and self.bc_origin[src_tok][0].k in ('named', 'lit'):
+                # integer load through a pointer bitcast from a struct pointer (clang copies a run of small trivially
+                # copyable members - an int and four bools - as one i64): CBMC does not constant-fold such a read of
+                # a struct that also has pointer/array members.  When integer members tile the loaded bytes exactly,
+                # read them one by one (little endian), which is the same value.
+                oty = self.bc_origin[src_tok][0]
+                leaves = []
+                if self.int_leaves(oty, '(*(%s *)%s)' % (ct(oty), p), 0, ty.bits // 8, leaves) and len(leaves) > 1:
+                    parts = []
+                    for (lv, off, sz) in leaves:
+                        e = '(%s)(%s)' % (ct(ty), lv)
+                        parts.append('(%s)(%s << %d)' % (ct(ty), e, 8 * off) if off else e)
+                    self.emit('%s = %s;' % (res, ' | '.join(parts)))
+                    return
             self.emit('%s = *%s;' % (res, p))
             return
         if op == 'store':
@@ -1998,6 +2013,55 @@ class FT(FuncTranslator):
             else:
                 return None
         return off
+
+    def int_leaves(self, ty, lv, off, n, out, depth=0):
+        """(lvalue, byte offset, size) of the scalar leaves of ty inside [0, n); True only if they are all integers and
+        tile [0, n) exactly (no padding, no leaf straddling n, no pointers/floats/unions)."""
+        m = self.m
+        if depth == 0:
+            if not self.int_leaves(ty, lv, off, n, out, 1):
+                return False
+            pos = 0
+            for (_, o, sz) in out:
+                if o != pos:
+                    return False
+                pos += sz
+            return pos == n
+        if off >= n:
+            return True
+        if depth > 12:
+            return False
+        k = ty.k
+        if k == 'int':
+            sz, _ = m.size_align(ty)
+            if ty.bits not in (8, 16, 32, 64) or off + sz > n:
+                return False
+            out.append((lv, off, sz))
+            return True
+        if k == 'named':
+            if m.is_union(ty):
+                return False
+            body = m.named.get(ty.name)
+            if body is None:
+                return False
+            ty = body
+            k = ty.k
+        if k == 'lit':
+            for idx, f in enumerate(ty.fields):
+                if not self.int_leaves(f, '%s.f%d' % (lv, idx), off + m.field_offset(ty, idx), n, out, depth + 1):
+                    return False
+            return True
+        if k == 'arr':
+            es, _ = m.size_align(ty.elem)
+            if es <= 0 or ty.n > 64:
+                return False
+            for i in range(ty.n):
+                if off + i * es >= n:
+                    break
+                if not self.int_leaves(ty.elem, '%s.a[%d]' % (lv, i), off + i * es, n, out, depth + 1):
+                    return False
+            return True
+        return False
 
     def zero_leaves(self, ty, lv, off, n, out, depth=0, lo=0):
         """typed `= 0` stores for every scalar leaf of ty (lvalue lv, at byte offset off) inside [0, n).
